@@ -3474,6 +3474,19 @@ class StateEngine(object):
             #print("----------")
 
             """
+            If this Map or Parallel state has already failed (a Branch failed
+            earlier and the failure was retried, caught or has failed the
+            execution) a Branch that completes afterwards, e.g. a nested Map
+            or Parallel state whose own Branches have all just finished, must
+            not complete the join: the result array would hold the failed
+            Branch's error and the state's Next state would run beside its
+            Catcher's. Treat it like the termination of that Branch.
+            """
+            if not error and "terminated" in branch_results:
+                self.check_pending_results(execution_arn)
+                return
+
+            """
             If we haven't yet received the results from all branches check if
             MaxConcurrency has been set and if it has check if we've received
             all of the results for the current block of MaxConcurrency. If we
